@@ -32,7 +32,7 @@ var Kinds = []string{
 	"resolve", "rotate", "sort", "rotate_node", "graft", "merge", "identical", "identical_one", "single_nodes",
 	"nni", "nni_undo", "nni_double", "rename", "rename_auto", "rename_regexp", "shuffle_tips", "clone", "subtree",
 	"reinit", "clear_lengths", "clear_supports", "comments_set", "comments_clear", "comments_add",
-	"scale_lengths", "round_supports", "resolve_named", "graft_tip_on_edge", "reroot_first",
+	"scale_lengths", "round_supports", "resolve_named", "graft_tip_on_edge", "reroot_first", "edge_comments_set",
 }
 
 // GenOp draws one operation. Arguments are drawn generously; the interpreter reduces the
@@ -414,6 +414,14 @@ func Apply(s *State, op Op) (int, error) {
 		for i, n := range t.Nodes() {
 			n.ClearComments()
 			n.AddComment("c" + strconv.Itoa(i))
+		}
+	case "edge_comments_set":
+		// replace the comment of every branch that can show one (one comment, after a length)
+		for i, e := range t.Edges() {
+			e.ClearComments()
+			if e.Length() != tree.NIL_LENGTH {
+				e.AddComment("b" + strconv.Itoa(i))
+			}
 		}
 	case "comments_clear":
 		t.ClearComments()
